@@ -79,7 +79,7 @@ func Tree(e formula.Expression) any {
 		case formula.SK_NumberLiteral:
 			return T{"Lit", "Num", LiteralNumber(n)}
 		case formula.SK_StringLiteral:
-			return T{"Lit", "Str", bytesSeq([]byte(n.Value))}
+			return T{"Lit", "Str", LiteralString(n)}
 		default:
 			return T{"Lit", SpecKind(n.Token), kindName(n.Token)}
 		}
